@@ -265,6 +265,18 @@ def run_handles_only(prog, rep):
                 tgt = unwrap(a.c[0])
             if tgt is not None and tgt.k == 'member' and tgt.decl.get('kind') == 'field' and (not tgt.c or tgt.c[0] is None or unwrap(tgt.c[0]).k == 'this'):
                 lazy.append((f, a, tgt.decl.get('name')))
+            # a member handed to a callee as a non-const reference (out parameter) is filled by that call
+            if a.k == 'call' and a.callee and not a.get('op'):
+                from ..sem import split_sig
+                pts = split_sig(a.callee.get('sig') or '()')
+                for i, arg in enumerate(real_args(a)):
+                    if arg is None or i >= len(pts):
+                        continue
+                    pt = pts[i]
+                    if pt.endswith('&') and not pt.endswith('&&') and not pt.startswith('const '):
+                        x = unwrap(arg)
+                        if x.k == 'member' and x.decl.get('kind') == 'field' and (not x.c or x.c[0] is None or unwrap(x.c[0]).k == 'this'):
+                            lazy.append((f, a, x.decl.get('name')))
     if nconst < 50:
         raise AnalysisBroken('R-NOCACHE: only %d const backend methods found' % nconst)
     rule.check(not lazy, 'backend|no-lazy-member', 'backend/hdf5', 'nix::hdf5::*HDF5', 'no const backend method writes a data member (%d const methods)' % nconst,
